@@ -151,12 +151,13 @@ func (p *program) checkFile(f *ast.File) {
 
 		go func() {
 			defer func() {
-				wg.Done()
-				<-sema
-
 				// Checker signals unexpected error with panic(error).
+				// The wait group is only signalled when there was no panic: otherwise the main
+				// goroutine could reach os.Exit before the re-raised panic ends the process.
 				r := recover()
 				if r == nil {
+					wg.Done()
+					<-sema
 					return // There were no panic
 				}
 				if err, ok := r.(error); ok {
